@@ -30,10 +30,14 @@ try:
                               "--continue-on-collection-errors"], cwd=scratch, stdout=subprocess.PIPE, stderr=subprocess.STDOUT, text=True,
                              env=dict(os.environ, PYTHONDONTWRITEBYTECODE="1"))
     out["checks"] = {}
-    for c in checks:
-        r = run(["/verif/check", c, "--tier", "quick"], env=dict(os.environ, VERIF_REPO=scratch))
+    def one(c):
+        r = run(["/verif/check", c, "--tier", "quick"], env=dict(os.environ, VERIF_REPO=scratch, VERIF_OUT=os.path.join(scratch, ".verif-out", c)))
         keys = sorted(set(re.findall(r"^  key=(.*)$", r.stdout, re.M)))
-        out["checks"][c] = dict(rc=r.returncode, keys=keys[:12], tail=r.stdout[-1500:] if r.returncode else "")
+        return c, dict(rc=r.returncode, keys=keys[:12], tail=r.stdout[-1500:] if r.returncode else "")
+    from concurrent.futures import ThreadPoolExecutor
+    with ThreadPoolExecutor(4) as ex:
+        for c, v in ex.map(one, checks):
+            out["checks"][c] = v
     tout, _ = tests.communicate()
     m = re.search(r"(\d+) passed", tout)
     out["tests_passed"] = int(m.group(1)) if m else None
